@@ -119,6 +119,8 @@ def independent_relion_file(path, df, v, px, rng, optics):
 
 # ---- projection --------------------------------------------------------------------------------------
 def snap(v, tol=1e-9):
+    if not math.isfinite(float(v)):
+        return ("not-finite", repr(v))
     r = float(v) * U
     k = round(r)
     return int(k) if abs(r - k) <= tol * max(1.0, abs(r)) else ("off-lattice", float(v))
@@ -129,6 +131,8 @@ def as_int(v):
         f = float(v)
     except (TypeError, ValueError):
         return ("not-a-number", repr(v))
+    if not math.isfinite(f):
+        return ("not-finite", repr(v))
     return int(f) if f == int(f) else ("non-integer", f)
 
 
